@@ -2711,6 +2711,10 @@ func TestVerifNotify(t *testing.T) {
 			}
 			out.line(cs, op, obs, tags...)
 		}
+		if nfPagesIs(ops) {
+			nfPagesRunOps(t, emit, ops) // client caches with several pages (zz_verif_notifypages_test.go)
+			return
+		}
 		if nfRootsIs(ops) {
 			nfRootsRunOps(t, emit, ops) // a client-side case (zz_verif_notifyroots_test.go)
 			return
@@ -2761,6 +2765,14 @@ func TestVerifNotify(t *testing.T) {
 	}
 	for v := 0; v < nfScriptedShapes; v++ {
 		runOps(fmt.Sprintf("s%d", v), nfScripted(verifRng(int64(v)), hookTok, v), "scripted")
+	}
+	// client caches with several pages: one entry per cursor, a handled list_changed drops them all
+	for v := 0; v < 3; v++ {
+		runOps(fmt.Sprintf("pgs%d", v), nfPagesScripted(v), "scripted")
+	}
+	for c, np := 0, verifN(300, 4000); c < np; c++ {
+		emit := func(op, obs string, tags ...string) { out.line(fmt.Sprintf("pg%d", c), op, obs, tags...) }
+		nfPagesRun(t, emit, nfPagesGen(verifRng(int64(700000+c))))
 	}
 	// client side: the client's roots against every configuration of its roots capability
 	for i, cfg := range nfRootsConfigs {
